@@ -512,6 +512,7 @@ fn tier_for(prop: &str, tier: &str) -> Tier {
         "C08" => 8000,
         "C03" => 15000,
         "C20" => 12000,
+        "C12" => 15000,
         _ => 25000,
     };
     if tier == "thorough" {
